@@ -23,7 +23,7 @@ ASSUMPTIONS = ["PARTIAL by nature: the loop model is proved to refine the snapsh
                "kernel contract (hypothesis, not proved): a watched signal is blocked outside ppoll, is delivered by the next "
                "ppoll that finds no ready descriptor, and that ppoll then fails with EINTR; ppoll writes revents for every slot",
                "a signal watch is not cancelled while its signal is pending in the kernel (the last cancel restores the default action)",
-               "a callback watching signal S does not register a further watch of S (hypothesis act_ok of C18_refines); registered descriptors are >= 0",
+               "registered descriptors are >= 0 (hypothesis act_ok of C18_refines; nothing else is assumed of the callbacks)",
                "two loops are exercised: the default ppoll-based one (Linux) and a minimal poll loop without ->signal hook (self-pipe fallback)", "malloc does not fail",
                "tickit_run is entered through the script op u<k>: the harness calls tickit_stop from inside the k-th ppoll of the run at the latest; "
                "the SIGINT watch tickit_run keeps for its duration is not modelled (no script uses signal 2); tickit_run / tickit_tick are not re-entered from callbacks"]
@@ -93,6 +93,19 @@ def gen(tier, seed, info):
                             yield "cb1=- cb2=%s cb3=- %s ws%d:0:2 %s %s %s" % (c2, pre, sg, second, a, mode)
     info["high_signal_cases"] = nhi
     n += nst + nhi
+    # ---- a signal callback registers a further watch of the signal being dispatched: the new watch
+    #      was not watching when the signal was delivered; it waits for the next delivery, whether
+    #      the registering watch is the last of the list or not (both loops)
+    nreg = 0
+    for loop in ["", "F "]:
+        for w in ["ws10:0:1", "ws10:0:1 ws10:0:2", "ws10:0:2 ws10:0:1", "ws10:0:1 ws12:0:2", "ws10:0:2 ws10:0:1 ws10:2:2"]:
+            for c1 in ["ws10:0:2", "ws10:0:3", "ws10:0:2,c0", "c0,ws10:0:2", "ws12:0:2", "ws10:0:2,k10", "ws10:0:1"]:
+                for a in (["k10", "k10 k12", "k10 r0 k10"] if loop else ["K10", "k10", "K10 K12", "k10 r0 K10"]):
+                    for c3 in ["-", "ws10:0:2"]:
+                        nreg += 1
+                        yield "%scb1=%s cb2=- cb3=%s %s %s r0 %s r0 r0" % (loop, c1, c3, w, a, a.split()[0])
+    info["register_during_dispatch_cases"] = nreg
+    n += nreg
     # ---- the self-pipe fallback (custom event loop without a ->signal hook): signals are not
     #      blocked, the handler runs at once; arrival points: before an iteration, from a deferred
     #      callback, from inside a signal callback of the running dispatch (other / same signal),
@@ -169,8 +182,8 @@ def gen(tier, seed, info):
             return "l%d:%d" % (rnd.choice([0, 2]), target())
         if r < 0.84:
             return "k%d" % rnd.choice(SIGS)
-        if r < 0.92 and not for_sig:
-            return "ws%d:%d:%d" % (rnd.choice(SIGS + HISIGS), rnd.choice([0, 2]), sigcb(target()))
+        if r < 0.92:
+            return "ws%d:%d:%d" % (rnd.choice(SIGS + HISIGS), rnd.choice([0, 2]), target())
         if r < 0.96:
             return "s"
         return "-"
@@ -193,7 +206,7 @@ def gen(tier, seed, info):
         for _ in range(nops):
             r = rnd.random()
             if r < 0.2:
-                toks.append("ws%d:%d:%d" % (rnd.choice(SIGS + HISIGS), rnd.choice([0, 2]), sigcb(rnd.randrange(ncb + 1))))
+                toks.append("ws%d:%d:%d" % (rnd.choice(SIGS + HISIGS), rnd.choice([0, 2]), rnd.randrange(ncb + 1)))
             elif r < 0.35:
                 toks.append("wi%d:%d:%d:%d" % (rnd.randrange(4), rnd.choice([1, 2, 3, 5]), rnd.choice([0, 2]), rnd.randrange(ncb + 1)))
             elif r < 0.45:
